@@ -10,6 +10,7 @@
 //   T2 go f(x) / g.Go(fn)      -> lineage-named, start-parked goroutines
 //   T3 runtime.GOMAXPROCS(0)   -> simrt.NumProcs()
 //   T4 (listed pkgs only) time.Now/Since, os.Getpid/Hostname -> simrt.*
+//   T8 (listed pkgs only) import "os" -> crashdisk (simulated disk with a persistence model)
 // and writes the rewritten copy below -out. The overlay file maps the original
 // path to the copy; -extra is a JSON map of additional overlay entries (virtual
 // files) merged in. Files that need no change are not overlaid.
@@ -40,6 +41,67 @@ type report struct {
 
 var t4pkgs = map[string]bool{}
 
+// T8: packages whose "os" import is swapped for the simulated disk.
+var diskpkgs = map[string]bool{}
+
+const crashdiskPath = "github.com/restic/restic/internal/verif/crashdisk"
+const fileioPath = "github.com/restic/restic/internal/fileio"
+
+// rewriteDisk (T8) points the file's "os" import at package crashdisk and
+// routes fileio.PreallocateFile to it as well.
+func rewriteDisk(path string, src []byte, pkgName string) ([]byte, []string, error) {
+	fset := token.NewFileSet()
+	f, err := parser.ParseFile(fset, path, src, parser.ParseComments)
+	if err != nil {
+		return nil, nil, err
+	}
+	if f.Name.Name != pkgName {
+		return nil, nil, nil
+	}
+	osName, fileioName := "", ""
+	for _, im := range f.Imports {
+		p, _ := strconv.Unquote(im.Path.Value)
+		switch p {
+		case "os":
+			osName = "os"
+			if im.Name != nil {
+				osName = im.Name.Name
+			}
+			im.Path.Value = strconv.Quote(crashdiskPath)
+			im.Name = ast.NewIdent(osName)
+		case fileioPath:
+			fileioName = "fileio"
+			if im.Name != nil {
+				fileioName = im.Name.Name
+			}
+		}
+	}
+	if osName == "" {
+		return nil, nil, nil
+	}
+	keep := ""
+	if fileioName != "" {
+		ast.Inspect(f, func(n ast.Node) bool {
+			if s, ok := n.(*ast.SelectorExpr); ok {
+				if id, ok := s.X.(*ast.Ident); ok && id.Name == fileioName && id.Obj == nil && s.Sel.Name == "PreallocateFile" {
+					id.Name = osName
+				}
+			}
+			return true
+		})
+		keep = "var _ = " + fileioName + ".PreallocateFile\n"
+	}
+	var buf bytes.Buffer
+	if err := format.Node(&buf, fset, f); err != nil {
+		return nil, nil, err
+	}
+	buf.WriteString("\n// simify keep-alives\n" + keep)
+	if _, err := parser.ParseFile(token.NewFileSet(), path, buf.Bytes(), 0); err != nil {
+		return nil, nil, fmt.Errorf("rewritten file does not parse: %w", err)
+	}
+	return buf.Bytes(), []string{"T8"}, nil
+}
+
 func main() {
 	repo := flag.String("repo", "/repo", "repository root")
 	out := flag.String("out", "", "output dir for rewritten files")
@@ -47,7 +109,13 @@ func main() {
 	extra := flag.String("extra", "", "json file with extra overlay entries")
 	rep := flag.String("report", "", "report json to write")
 	t4 := flag.String("t4", "internal/repository", "comma separated pkg dirs that get T4")
+	t8 := flag.String("t8", "", "comma separated pkg dirs whose os import becomes the simulated disk")
 	flag.Parse()
+	for _, p := range strings.Split(*t8, ",") {
+		if p != "" {
+			diskpkgs[p] = true
+		}
+	}
 	for _, p := range strings.Split(*t4, ",") {
 		t4pkgs[p] = true
 	}
@@ -70,7 +138,7 @@ func main() {
 		}
 		for _, e := range ents {
 			name := e.Name()
-			if e.IsDir() || !strings.HasSuffix(name, ".go") || strings.HasSuffix(name, "_test.go") {
+			if e.IsDir() || !strings.HasSuffix(name, ".go") || (strings.HasSuffix(name, "_test.go") && !diskpkgs[pkg]) {
 				continue
 			}
 			src := filepath.Join(dir, name)
@@ -81,7 +149,13 @@ func main() {
 			if err != nil {
 				fatal(err)
 			}
-			res, ts, err := rewrite(src, data, t4pkgs[pkg])
+			var res []byte
+			var ts []string
+			if diskpkgs[pkg] {
+				res, ts, err = rewriteDisk(src, data, filepath.Base(pkg))
+			} else {
+				res, ts, err = rewrite(src, data, t4pkgs[pkg])
+			}
 			if err != nil {
 				fmt.Fprintf(os.Stderr, "simify: %s: %v (left untouched)\n", src, err)
 				continue
